@@ -16,7 +16,7 @@ RULE = ('histories of 1-8 requests on one connection, each delivered as one segm
         'request look-alikes, sizes 1-3000 around the 1 KiB buffer, refused requests in between, Connection: close anywhere); non-trivial = at least 2 requests of which an earlier one has a header, body, '
         'param or context entry that a later one lacks; distinct by canonical JSON')
 ASSUMPTIONS = ['one segment per request; a segment longer than the buffer is delivered over consecutive reads; the head fits the 1 KiB buffer (C06 treats other segmentations)',
-               'the harness mirrors the 15-line session loop through the hooks (the loop itself is tied to TcpStream)']
+               'the harness mirrors the 15-line session loop through the hooks over a scripted in-memory connection (exact control of what each read returns); 40 % of the cases also go through the real Session::manage over a loopback TCP connection (hook H6), one write per request, waiting for the answer']
 
 
 def mk(rng):
@@ -28,7 +28,7 @@ def mk(rng):
         h, b = reqgen.request(rng, close=(i == close_at))
         if len(h) > 1024: continue
         script.append(h + b)
-    return {'case': {'script': [s.hex() for s in script], 'eof': True, 'fresh': True}}
+    return {'case': {'script': [s.hex() for s in script], 'eof': True, 'fresh': True, 'real': rng.random() < 0.4}}
 
 
 def corpus():
@@ -36,10 +36,10 @@ def corpus():
     r2 = b'GET / HTTP/1.1\r\n\r\n'
     r3 = b'GET /p/q HTTP/1.1\r\nConnection: close\r\n\r\n'
     big = b'PUT /a/b HTTP/1.1\r\nContent-Length: 3000\r\n\r\n' + bytes(range(256)) * 11 + bytes(184)
-    return [{'case': {'script': [hx(r1), hx(r2)], 'eof': True, 'fresh': True}},
-            {'case': {'script': [hx(r1), hx(r2), hx(r3), hx(r2)], 'eof': True, 'fresh': True}},
-            {'case': {'script': [hx(big), hx(r2), hx(big), hx(r1)], 'eof': True, 'fresh': True}},
-            {'case': {'script': [hx(b'GET x HTTP/1.1\r\n\r\n'), hx(r1), hx(r2)], 'eof': True, 'fresh': True}}]
+    return [{'case': {'script': [hx(r1), hx(r2)], 'eof': True, 'fresh': True, 'real': True}},
+            {'case': {'script': [hx(r1), hx(r2), hx(r3), hx(r2)], 'eof': True, 'fresh': True, 'real': True}},
+            {'case': {'script': [hx(big), hx(r2), hx(big), hx(r1)], 'eof': True, 'fresh': True, 'real': True}},
+            {'case': {'script': [hx(b'GET x HTTP/1.1\r\n\r\n'), hx(r1), hx(r2)], 'eof': True, 'fresh': True, 'real': True}}]
 
 
 def generate(rng, tier):
@@ -47,27 +47,39 @@ def generate(rng, tier):
     return [mk(rng) for _ in range(n)]
 
 
-def judge(case, out, m):
-    v = []
-    if 'panic' in out: return [('violation', 'panic: ' + out['panic'][:160])]
-    res = out['responses']
-    fresh = out.get('fresh', [])
-    k = 0
+def against_fresh(res, fresh, who):
+    """the property on one observed response list: k-th response = what the same request gets alone, in order, nothing after Connection: close"""
+    v, k = [], 0
     for i, f in enumerate(fresh):
         if 'panic' in f: v.append(('violation', f'request {i + 1} alone panics')); break
         fr = f['responses']
         if k >= len(res):
-            if fr: v.append(('violation', f'request {i + 1} got no response on the shared connection; alone it is answered'))
+            if fr: v.append(('violation', f'{who}: request {i + 1} got no response on the shared connection; alone it is answered'))
             break
         if not fr:            # the request alone is not answered (unknown method ...): the session ends there
             break
         if res[k] != fr[0]:
-            v.append(('violation', f'response {k + 1} differs from the response the same request gets on a fresh connection: {unhx(res[k])[-160:]!r} vs {unhx(fr[0])[-160:]!r}'))
+            v.append(('violation', f'{who}: response {k + 1} differs from the response the same request gets on a fresh connection: {unhx(res[k])[-160:]!r} vs {unhx(fr[0])[-160:]!r}'))
             break
         k += 1
         if f['end'] == 'closed_by_server':
-            if len(res) > k: v.append(('violation', 'responses were written after the Connection: close response'))
+            if len(res) > k: v.append(('violation', f'{who}: responses were written after the Connection: close response'))
             break
+    return v
+
+
+def judge(case, out, m):
+    if 'panic' in out: return [('violation', 'panic: ' + out['panic'][:160])]
+    res = out['responses']
+    fresh = out.get('fresh', [])
+    v = against_fresh(res, fresh, 'session loop (mirror over the hooks)')
+    if 'real' in out:
+        if 'panic' in out['real']: v.append(('violation', 'the real session loop panicked: ' + str(out['real'])[:160]))
+        elif unhx(out['real']['all']) != b''.join(unhx(r) for r in res) and not v:
+            # the mirror's responses were just judged request by request; the real loop must write exactly their concatenation
+            a, b = unhx(out['real']['all']), b''.join(unhx(r) for r in res)
+            i = next((i for i, (x, y) in enumerate(zip(a, b)) if x != y), min(len(a), len(b)))
+            v.append(('violation', f'Session::manage over loopback TCP writes {len(a)} bytes, request by request the answers are {len(b)} bytes; first difference at byte {i}: {a[max(0, i - 60):i + 80]!r} vs {b[max(0, i - 60):i + 80]!r}'))
     if m is not None:
         mm = m.get('model', {})
         if mm.get('responses') != res or mm.get('end') != out.get('end'):
